@@ -195,6 +195,12 @@ func (x *Exec) instrMods(fr *Frame, in ssa.Instruction, ms *ModSet, depth int) {
 		x.callMods(fr, i.Common(), ms, depth)
 	case *ssa.Defer:
 		x.callMods(fr, i.Common(), ms, depth)
+	case *ssa.Next:
+		if rng, ok := i.Iter.(*ssa.Range); ok && !i.IsString {
+			if n, srt, ok := x.visitedName(rng); ok {
+				ms.heap[n] = srt
+			}
+		}
 	case *ssa.Go:
 	case *ssa.Send, *ssa.Select:
 		x.ghostMods(ms)
@@ -818,6 +824,15 @@ func (x *Exec) execCall(fr *Frame, st *State, instr ssa.Instruction, c *ssa.Call
 	}
 	if c.IsInvoke() {
 		x.nilCheck(st, args[0].L[0], "invoke "+c.Method.Name())
+	}
+	if key == "sync.Once.Do" && len(args) == 2 {
+		// Once.Do(f) on a Once that has not fired yet runs f (assumption listed)
+		if cr, ok := x.closures[args[1].One()]; ok {
+			x.assume1("sync.Once.Do runs its argument (the Once is assumed not to have fired before) in " + shortFn(fr.fn))
+			x.inlineCall(fr, st, cr.mc.Fn.(*ssa.Function), nil, nil, cr)
+			setRes(Val{})
+			return
+		}
 	}
 	// closures created in this activation
 	if callee == nil && !c.IsInvoke() {
